@@ -6,6 +6,10 @@ package props
 //   fa <width> <typ> <alphabet> {<name> <desc> <letters> <quals>}*
 //   fq <qid> <typ> <enc> <alphabet> {<name> <desc> <letters> <quals>}*
 //   fap <width> <IDPrefix> <SeqPrefix> <typ> <alphabet> {...}*      (prefixes in hex; compared with the model, the round trip is not demanded)
+//   fax <width> <typ> <alphabet> {...}*       fa through a failing io.Writer, once per failure point (see below)
+//   fqx <qid> <typ> <enc> <alphabet> {...}*   fq through a failing io.Writer
+//   fapx <width> <IDPrefix> <SeqPrefix> <typ> <alphabet> {...}*   fax with the writer's prefix fields set (a multi-byte SeqPrefix is the
+//        only underlying write of the FASTA writer after the header that is longer than one byte)
 //   fva <width|-> <prec|-> <typ> <alphabet> <name> <desc> <letters> <quals>
 //   fvq <plus> <prec|-> <typ> <enc> <alphabet> <name> <desc> <letters> <quals>
 //
@@ -21,14 +25,24 @@ package props
 //   w <n,...> <delta,...> <fnv64 of the bytes> <len of the bytes> r <call history>
 //   f <fnv64 of the bytes> <len of the bytes> r <call history>            (fva, fvq)
 // n = value returned by each Write, delta = growth of the buffer during that Write.
+//
+// fax / fqx: the records are first written to a bytes.Buffer (the fault-free text, L bytes), then,
+// for every k = 0..L, written again with a fresh writer to an io.Writer that accepts exactly k
+// bytes in total and then fails (short write + error); the run stops at the first Write that
+// returns an error.  Observation
+//   x <L> <fnv64 of the fault-free text> {<n,...>/<delta,...>/<e>/<p>}        one token per k
+// n, delta as above (the failed Write included), e = index of the Write that returned an error
+// or "-", p = 1 when the bytes emitted are the first bytes of the fault-free text.
 
 import (
 	"bytes"
+	"errors"
 	"fmt"
 	"go/ast"
 	"go/parser"
 	"go/printer"
 	"go/token"
+	"io"
 	"path/filepath"
 	"strings"
 
@@ -60,6 +74,8 @@ func c01Exec(input string) string {
 	switch f[0] {
 	case "fva", "fvq":
 		return c01FormatExec(f)
+	case "fax", "fqx", "fapx":
+		return c01FaultExec(f)
 	case "fa":
 		typ, alpha, rs = f[2], builtinByName(f[3]), sioParseRecs(f[4:])
 		w = fasta.NewWriter(&buf, hx.Atoi(f[1]))
@@ -95,6 +111,80 @@ func c01Exec(input string) string {
 		calls = sioReadFastq(data, typ, alpha, enc)
 	}
 	return fmt.Sprintf("w %s %s %s %d r %s", hx.Ints(ns), hx.Ints(ds), sioFnv(data), len(data), calls)
+}
+
+// sioLimitWriter accepts limit bytes in total, then fails (short write + error).
+type sioLimitWriter struct {
+	buf   bytes.Buffer
+	limit int
+}
+
+var errSioFull = errors.New("device full")
+
+func (l *sioLimitWriter) Write(p []byte) (int, error) {
+	room := l.limit - l.buf.Len()
+	if room >= len(p) {
+		return l.buf.Write(p)
+	}
+	l.buf.Write(p[:room])
+	return room, errSioFull
+}
+
+func c01FaultExec(f []string) string {
+	var (
+		rs    []sioRec
+		typ   string
+		alpha alphabet.Alphabet
+		enc   = alphabet.Sanger
+		mk    func(io.Writer) seqio.Writer
+	)
+	if f[0] == "fax" {
+		typ, alpha, rs = f[2], builtinByName(f[3]), sioParseRecs(f[4:])
+		width := hx.Atoi(f[1])
+		mk = func(w io.Writer) seqio.Writer { return fasta.NewWriter(w, width) }
+	} else if f[0] == "fapx" {
+		typ, alpha, rs = f[4], builtinByName(f[5]), sioParseRecs(f[6:])
+		width, idp, sp := hx.Atoi(f[1]), hx.Unhex(f[2]), hx.Unhex(f[3])
+		mk = func(w io.Writer) seqio.Writer {
+			fw := fasta.NewWriter(w, width)
+			fw.IDPrefix, fw.SeqPrefix = idp, sp
+			return fw
+		}
+	} else {
+		typ, enc, alpha, rs = f[2], sioEnc(f[3]), builtinByName(f[4]), sioParseRecs(f[5:])
+		qid := f[1] == "1"
+		mk = func(w io.Writer) seqio.Writer {
+			fw := fastq.NewWriter(w)
+			fw.QID = qid
+			return fw
+		}
+	}
+	var full bytes.Buffer
+	w := mk(&full)
+	for _, r := range rs {
+		if _, err := w.Write(sioSeq(typ, r, alpha, enc)); err != nil {
+			return "werr " + hx.Hex([]byte(err.Error()))
+		}
+	}
+	out := []string{"x", fmt.Sprint(full.Len()), sioFnv(full.Bytes())}
+	for k := 0; k <= full.Len(); k++ {
+		lw := &sioLimitWriter{limit: k}
+		w := mk(lw)
+		var ns, ds []int
+		e := "-"
+		for i, r := range rs {
+			before := lw.buf.Len()
+			n, err := w.Write(sioSeq(typ, r, alpha, enc))
+			ns = append(ns, n)
+			ds = append(ds, lw.buf.Len()-before)
+			if err != nil {
+				e = fmt.Sprint(i)
+				break
+			}
+		}
+		out = append(out, fmt.Sprintf("%s/%s/%s/%s", hx.Ints(ns), hx.Ints(ds), e, hx.B(bytes.HasPrefix(full.Bytes(), lw.buf.Bytes()))))
+	}
+	return strings.Join(out, " ")
 }
 
 func c01FormatExec(f []string) string {
@@ -180,6 +270,42 @@ func c01FormatGen(g *hx.Gen) {
 	}
 }
 
+// c01FaultGen: short records (the run is repeated once per byte of the text) written through a
+// writer that fails after k bytes, for every k: FASTA at widths around the lengths, FASTQ with
+// both styles of the '+' line.
+func c01FaultGen(g *hx.Gen, alpha, typ string) {
+	pool := sioLetterPool(alpha)
+	enc := alphabet.Sanger
+	if typ == "q" {
+		enc = sioPhredEncodings[g.Intn(len(sioPhredEncodings))]
+	}
+	n := g.Pick(1, 1, 2, 3)
+	rs := make([]sioRec, n)
+	for i := range rs {
+		l := g.Pick(0, 1, 2, 5, 7, 12)
+		name := sioName(g)
+		if len(name) > 8 {
+			name = name[:8]
+		}
+		desc := sioDesc(g)
+		if len(desc) > 9 {
+			desc = strings.TrimSpace(desc[:9])
+		}
+		rs[i] = sioRec{name: name, desc: desc, letters: g.Letters(pool, l)}
+		if typ == "q" {
+			rs[i].quals = sioQuals(g, enc, l)
+		}
+	}
+	if g.Chance(0.2) {
+		pp := sioPrefixPairs[g.Intn(len(sioPrefixPairs))]
+		g.Case(fmt.Sprintf("fapx %d %s %s %s %s", g.Pick(1, 2, 3, 5, 7, 60), hx.Hex([]byte(pp[0])), hx.Hex([]byte(pp[1])), typ, alpha) + sioRecTokens(rs))
+	} else if g.Chance(0.5) {
+		g.Case(fmt.Sprintf("fax %d %s %s", g.Pick(1, 2, 3, 5, 7, 60), typ, alpha) + sioRecTokens(rs))
+	} else {
+		g.Case(fmt.Sprintf("fqx %s %s %d %s", hx.B(g.Chance(0.6)), typ, int(enc), alpha) + sioRecTokens(rs))
+	}
+}
+
 func c01Gen(g *hx.Gen) {
 	n := g.Scale(10000, 150000)
 	for k := 0; k < n && !g.Done(); k++ {
@@ -192,6 +318,10 @@ func c01Gen(g *hx.Gen) {
 		if g.Chance(0.5) {
 			typ = "q"
 		}
+		if g.Chance(0.04) {
+			c01FaultGen(g, alpha, typ)
+			continue
+		}
 		if g.Chance(0.03) {
 			pp := sioPrefixPairs[g.Intn(len(sioPrefixPairs))]
 			width := sioWidth(g)
@@ -202,6 +332,9 @@ func c01Gen(g *hx.Gen) {
 		if g.Chance(0.45) {
 			width := sioWidth(g)
 			rs := sioRecords(g, alpha, width, typ == "q", alphabet.Sanger, 5)
+			if g.Chance(0.15) {
+				rs = sioRecordsDecreasing(g, alpha, width, typ == "q", alphabet.Sanger, 6)
+			}
 			if g.Chance(0.04) {
 				rs, width = c01Spoil(g, rs, width, false)
 			}
@@ -212,6 +345,9 @@ func c01Gen(g *hx.Gen) {
 				enc = alphabet.Sanger
 			}
 			rs := sioRecords(g, alpha, g.Pick(1, 50, 100, 4096), typ == "q", enc, 5)
+			if g.Chance(0.15) {
+				rs = sioRecordsDecreasing(g, alpha, g.Pick(1, 50, 100, 4096), typ == "q", enc, 6)
+			}
 			if g.Chance(0.04) {
 				rs, _ = c01Spoil(g, rs, 1, true)
 				if typ == "q" && g.Chance(0.3) {
@@ -264,8 +400,10 @@ func c01Shrink(input string) []string {
 	f := hx.Fields(input)
 	hdr := 4
 	switch f[0] {
-	case "fq", "fva":
+	case "fq", "fva", "fqx":
 		hdr = 5
+	case "fap", "fapx":
+		hdr = 6
 	case "fvq":
 		hdr = 6
 	}
